@@ -642,6 +642,13 @@ def generate_src_rle(rng, tier):
             yield "src_rle_at %s %d" % (hexs(b), i)
         yield "src_rle_count %s" % hexs(bh)
         yield "src_rle_run %s" % hexs(b)
+        if n <= 320:
+            for hdr in (0, 1):
+                need = len(bh if hdr else b)
+                for wm in (0, 1):
+                    L = need if rng.random() < 0.5 else need + rng.randint(0, 5)
+                    yield "src_rle_enc %s %d %d %s" % (lst(vals), hdr, wm, hexs([rng.randrange(256) for _ in range(L)]))
+            yield "src_rle_size %s" % lst(vals)
         for m in range(0, min(len(b), 40) + 1):
             yield "src_rle_rc %s" % hexs(b[:m])
     for ln in range(0, 24):
@@ -697,7 +704,20 @@ def o_src_rle_any(args, c):
     return ("fault=" + c["fault"]) if "fault" in c else None
 
 
-SRC_RLE_ORACLES = {"src_rle_dec": o_src_rle_dec, "src_rle_at": o_src_rle_at, "src_rle_count": o_src_rle_any,
+def o_src_rle_enc(args, c):
+    vals = [int(x) for x in args[0][1:].split(",")] if len(args[0]) > 1 else []
+    hdr, buf = int(args[1]), list(bytes.fromhex(args[3][1:]))
+    if "fault" in c:
+        return "fault=%s (access outside the exact-size destination)" % c["fault"]
+    if c.get("buf") in ("lo", "hi"):
+        return "write outside the destination (%s)" % c["buf"]
+    enc, out = rle_bytes(vals, bool(hdr)), list(bytes.fromhex(c["buf"][1:]))
+    if int(c["ret"]) != len(enc) or out[:len(enc)] != enc or out[len(enc):] != buf[len(enc):]:
+        return "wrote %s (returned %s), expected %s then the old bytes" % (c["buf"][:60], c["ret"], hexs(enc)[:60])
+    return None
+
+
+SRC_RLE_ORACLES = {"src_rle_enc": o_src_rle_enc, "src_rle_size": o_src_rle_any, "src_rle_dec": o_src_rle_dec, "src_rle_at": o_src_rle_at, "src_rle_count": o_src_rle_any,
                    "src_rle_run": o_src_rle_any, "src_rle_rc": o_src_rle_any}
 SRC_RLE_TRUSTED = ["gen/c2coq.py (C-to-Gallina translator: clang 14 typed AST -> coq/gen/Src_rle.v, calling coq/gen/Src_tagged.v) "
                    "and coq/theories/CSem.v; validated per run only by executing the generated functions against the C "
@@ -721,9 +741,11 @@ def _classify_src(case, m):
 
 
 PARTS = {
-    "C02": dict(coq_props=["Properties_C02_rledict"], files=FILES, rule=RULE_ENC, generate=generate_C02,
-                oracles={"rle_enc": o_rle_enc_C02, "dict_enc": o_dict_enc_C02, "dict_with": o_dict_with_C02},
-                classify=classify, search=search, assumptions=ASSUME, trusted_base=TRUST,
+    "C02": dict(coq_props=["Properties_C02_rledict"], files=FILES, rule=RULE_ENC,
+                generate=_with_src(generate_C02, ("src_rle_enc", "src_rle_size", "src_rle_dec")),
+                oracles=dict({"rle_enc": o_rle_enc_C02, "dict_enc": o_dict_enc_C02, "dict_with": o_dict_with_C02},
+                             **SRC_RLE_ORACLES),
+                classify=_classify_src, search=search, assumptions=ASSUME, trusted_base=TRUST + SRC_RLE_TRUSTED,
                 configs_quick=["pinned", "O0"]),
     "C03": dict(coq_props=["Properties_C03_rledict"], files=FILES, rule=RULE_ENC, generate=generate_enc,
                 oracles={"rle_enc": o_rle_enc_C03, "dict_enc": o_dict_enc_C03, "dict_with": o_dict_with_C03},
